@@ -5,6 +5,7 @@ import (
 	"errors"
 	"fmt"
 	"os"
+	"sort"
 	"strconv"
 	"strings"
 	"time"
@@ -16,6 +17,7 @@ import (
 
 	"github.com/256dpi/lungo"
 	"github.com/256dpi/lungo/bsonkit"
+	"github.com/256dpi/lungo/mongokit"
 
 	"verifharness/internal/run"
 	"verifharness/internal/vj"
@@ -134,7 +136,7 @@ func (c *sessCall) fields() string {
 
 // sessStep is one step of a history. Sid = -1 is the plain client (no session context).
 type sessStep struct {
-	K         string // start commit abort end call
+	K         string // start commit abort end call idxabort (an index operation directly on the open transaction, then abort)
 	Sid       int
 	C         *sessCall
 	FailStore bool   // the next Store of the (wrapped) memory store fails
@@ -159,6 +161,9 @@ func (st *sessStep) req(modelK string, oids []interface{}, skipModel bool) strin
 	if st.K == "call" {
 		sb.WriteString(st.C.fields())
 		sb.WriteString(`,"oids":` + sessEncVals(oids))
+	}
+	if st.K == "idxabort" && st.C != nil {
+		sb.WriteString(st.C.fields()) // harness-only: the model sees an abort
 	}
 	if modelK != st.K {
 		sb.WriteString(`,"real":` + run.JS(st.K))
@@ -523,6 +528,10 @@ func (m *sessRunner) step(st *sessStep, h *sessHist) sessOut {
 	preCat := m.engine.Catalog()
 	preDump := m.committed
 	holder := m.holder()
+	preDeep := ""
+	if holder >= 0 && (st.K == "abort" || st.K == "end" || st.K == "idxabort") {
+		preDeep = sessDumpOpt(preCat, true)
+	}
 	var s *lungo.Session
 	if st.Sid >= 0 && st.Sid < len(m.sess) {
 		s = m.sess[st.Sid]
@@ -620,6 +629,22 @@ func (m *sessRunner) step(st *sessStep, h *sessHist) sessOut {
 		} else {
 			reply = sessDoneReply
 		}
+	case "idxabort":
+		// createIndex / dropIndex directly on the session's open transaction (the driver refuses index
+		// management inside a transaction: nested Begin), then abort; the model sees the abort only
+		modelK = "abort"
+		if s == nil {
+			reply = `{"bad":"no session"}`
+			break
+		}
+		if t := s.Transaction(); t != nil && st.C != nil {
+			tags = append(tags, "txn-index-op:"+st.C.M+":"+m.txnIndexOp(t, st.C, viol))
+		}
+		if err := s.AbortTransaction(bg); err != nil {
+			reply = sessErrReply(err)
+		} else {
+			reply = sessDoneReply
+		}
 	case "end":
 		if s == nil {
 			reply = `{"bad":"no session"}`
@@ -708,7 +733,7 @@ func (m *sessRunner) step(st *sessStep, h *sessHist) sessOut {
 			switch {
 			case inTxnCall:
 				w, what = "uncommitted-visible", "a write inside an open transaction changed the committed catalog"
-			case st.K == "abort" || st.K == "end":
+			case st.K == "abort" || st.K == "end" || st.K == "idxabort":
 				w, what = "abort-leaked", "abort/end changed the committed catalog"
 			case storeFailed:
 				w, what = "commit-failed-changed", "a commit whose store failed changed the committed catalog"
@@ -724,6 +749,15 @@ func (m *sessRunner) step(st *sessStep, h *sessHist) sessOut {
 		if postDump != preDump {
 			viol("C03", "a step that reported no successful write changed the committed catalog", "error-changed-state:"+st.K, "before "+preDump+"\nafter  "+postDump)
 		}
+	}
+	// C15: after an abort the committed catalog has exactly the previous index names and contents
+	// (members in index order, entries coherent with the documents), also when the aborted transaction
+	// created or dropped indexes
+	if preDeep != "" {
+		if postDeep := sessDumpOpt(postCat, true); postDeep != preDeep {
+			viol("C15", "an aborted transaction changed the indexes or documents of the committed catalog", "abort-leaked-index", "before "+preDeep+"\nafter  "+postDeep)
+		}
+		m.coherent(postCat, "the committed catalog after "+st.K, viol)
 	}
 	if storeFailed {
 		if sc, _ := m.store.inner.Load(); sc != postCat {
@@ -864,6 +898,89 @@ func (m *sessRunner) step(st *sessStep, h *sessHist) sessOut {
 		out.cases = append(out.cases, run.Case{Req: `{"op":"sess.dump"` + m.hkField() + `}`, Impl: postDump, Tags: []string{"cmp:dump"}, Accept: h.accept(postDump)})
 	}
 	return out
+}
+
+// coherent runs the index coherence monitor of the api stream (api_index.go) on every namespace.
+func (m *sessRunner) coherent(cat *lungo.Catalog, where string, viol func(prop, what, witness, detail string)) {
+	defer func() {
+		if p := recover(); p != nil {
+			viol("C20", "monitor index panicked on the implementation's state", "monitor-panic:index", fmt.Sprint(p))
+		}
+	}()
+	if cat == nil {
+		return
+	}
+	for _, h := range sessSortedHandles(cat) {
+		for _, is := range indexIssues(cat.Namespaces[h]) {
+			viol("C15", "an index does not hold exactly the documents of its collection (within its partial filter) in key order", "index-incoherent:"+is.reason,
+				h.String()+" in "+where+": "+is.detail)
+		}
+	}
+}
+
+func sessIndexNames(cat *lungo.Catalog, h lungo.Handle) string {
+	if cat == nil || cat.Namespaces[h] == nil {
+		return "<no namespace>"
+	}
+	var names []string
+	for n := range cat.Namespaces[h].Indexes {
+		names = append(names, n)
+	}
+	sort.Strings(names)
+	return strings.Join(names, ",")
+}
+
+// txnIndexOp performs an index operation directly on an open transaction and checks the
+// transaction's view: a failed operation leaves the index names alone, a successful one has
+// exactly its effect, and every index of the view is coherent. Returns the error class.
+func (m *sessRunner) txnIndexOp(t *lungo.Transaction, c *sessCall, viol func(prop, what, witness, detail string)) (cls string) {
+	defer func() {
+		if p := recover(); p != nil {
+			cls = "panic"
+			viol("C20", "index operation on a transaction panicked", "sess-panic:txn-"+c.M, fmt.Sprint(p))
+		}
+	}()
+	h := c.handle()
+	before := sessIndexNames(t.Catalog(), h)
+	var err error
+	name := c.Name
+	switch c.M {
+	case "createIndex":
+		keys := *bsonkit.Clone(&c.Keys)
+		name, err = t.CreateIndex(h, "", mongokit.IndexConfig{Key: &keys, Unique: c.Unique})
+	case "dropIndex":
+		err = t.DropIndex(h, c.Name)
+	case "dropAllIndexes":
+		err = t.DropIndex(h, "")
+	default:
+		return "skipped"
+	}
+	after := sessIndexNames(t.Catalog(), h)
+	has := func(n string) bool { return strings.Contains(","+after+",", ","+n+",") }
+	switch {
+	case err != nil:
+		cls = sessErrClass(err)
+		if after != before {
+			viol("C15", "a failed index operation changed the index names of the transaction's view", "index-incoherent:failed-op-changed-names", c.M+": "+before+" -> "+after)
+		}
+	case c.M == "createIndex":
+		cls = "ok"
+		if !has(name) {
+			viol("C15", "a created index is missing from the transaction's view", "index-incoherent:index-lost", name+" not in "+after)
+		}
+	case c.M == "dropIndex":
+		cls = "ok"
+		if has(c.Name) {
+			viol("C15", "a dropped index is still in the transaction's view", "index-incoherent:unexpected-index", c.Name+" in "+after)
+		}
+	default:
+		cls = "ok"
+		if after != "_id_" {
+			viol("C15", "dropping all indexes left other indexes than _id_", "index-incoherent:unexpected-index", after)
+		}
+	}
+	m.coherent(t.Catalog(), "the transaction's view after "+c.M, viol)
+	return cls
 }
 
 // takeSnap records a snapshot root and its current observation.
